@@ -798,8 +798,12 @@ soxr_error_t soxr_process(soxr_t p,
   }
   p->flushing |= ilen == ilen0 && flush_requested;
 
-  if (!out && !in)
+  if (!out && !in) {
     idone = ilen;
+    if (p->flushing && !p->error && p->resamplers) /* End of input may */
+      for (u = 0; u < p->num_channels; ++u)  /* be signalled without buffers. */
+        resampler_flush(p->resamplers[u]);
+  }
   else if (p->error)            /* Sticky, as in soxr_input & soxr_output. */
     idone = 0;
   else if (p->io_spec.itype & p->io_spec.otype & SOXR_SPLIT) { /* Both i & o */
